@@ -68,9 +68,8 @@ func (s *memoryNamespaceManager) Namespaces(_ context.Context) ([]*namespace.Nam
 }
 
 func (s *memoryNamespaceManager) ShouldReload(newValue interface{}) bool {
-	s.RLock()
-	defer s.RUnlock()
-
+	// Namespaces takes the read lock itself; taking it here as well would be
+	// a recursive read lock, which deadlocks with a concurrent set().
 	nn, _ := s.Namespaces(context.Background())
 
 	return !reflect.DeepEqual(newValue, nn)
